@@ -754,3 +754,28 @@ def stop_loop_selection(chk, rule, which, why):
     ok = src(lp.iter) == coll and not any(isinstance(y, (ast.Break, ast.Return)) for y in ast.walk(lp))
     chk.ob(rule, "%s looks at all of %s and never leaves the loop early" % (qual, coll), ok, f.where(lp), detail=src(lp.iter), construct=f.ident,
            text="stop loop range")
+
+
+def elif_chain_exact(cfg, nodes):
+    """`nodes`: the effect statements of an if / elif / ... / else chain, in source order.  The chain is exact when, beyond the guards
+    all of them share, the i-th is selected by exactly {own test True} + {tests of the earlier branches False} (the last may be the
+    bare else: no test of its own).  Returns [] or a list of (node, reason): an extra conjunct on a branch, a branch reachable past
+    an alternative, a branch whose own test does not dominate it (an `or` alternative was added)."""
+    from sa.cfg import canon_set, canon_fact
+    gs = [set(canon_set(cfg.guards_at(n.id))) for n in nodes]
+    if not gs:
+        return []
+    base = set.intersection(*gs)
+    bad = []
+    earlier = []
+    for i, (n, g) in enumerate(zip(nodes, gs)):
+        ex = g - base
+        want_neg = {canon_fact(k, not v) for k, v in earlier}
+        if not want_neg <= ex:
+            bad.append((n, "reachable although an earlier alternative matched: missing %s" % sorted(want_neg - ex)))
+        mine = ex - want_neg
+        last = i == len(nodes) - 1
+        if len(mine) > 1 or (len(mine) == 0 and not last):
+            bad.append((n, "selected by %s instead of one test of its own" % sorted(mine)))
+        earlier.extend(mine)
+    return bad
